@@ -13,7 +13,11 @@ pub fn gen(rng: &mut Rng, tier: Tier, out: &mut Vec<String>) {
         let colour_only = i % 5 == 4;
         let k = 1 + (i / 2) % 2;
         let ntris = if colour_only { 1 } else { 1 + rng.below(if tier == Tier::Quick { 4 } else { 8 }) as usize };
-        let flags = format!("cull=n sort={} test=l cw=1 dw=1 sh=0 proj=none zinit={}",
+        // a third of the framebuffer scenes: culling on, every triangle submitted in both windings
+        // (exactly one of each pair must be drawn, so the ideal image is unchanged)
+        let both_windings = !colour_only && i % 3 == 0;
+        let cull = if both_windings { *rng.pick(&['b', 'f']) } else { 'n' };
+        let flags = format!("cull={cull} sort={} test=l cw=1 dw=1 sh=0 proj=none zinit={}",
             *rng.pick(&['n', 'n', 'f', 'b']), h32(0.0));
         let (mut line, _w, _h) = header(rng, door, if colour_only { "cb" } else { "fb" }, &flags, k);
         // independent triangles (3 vertices each) plus, sometimes, shared vertices
@@ -36,6 +40,10 @@ pub fn gen(rng: &mut Rng, tier: Tier, out: &mut Vec<String>) {
             } else {
                 tris.push([base, base + 1, base + 2]);
             }
+        }
+        if both_windings {
+            let rev: Vec<[usize; 3]> = tris.iter().map(|t| [t[0], t[2], t[1]]).collect();
+            tris.extend(rev);
         }
         push_verts(&mut line, &verts);
         line += &format!(" t {}", tris.len());
